@@ -41,10 +41,9 @@ Proof. exact step_inv. Qed.
 Print Assumptions C08_step_sound.
 
 (* every tensor flagged isometric (left_inds) is isometric: over ALL histories
-   of the WHOLE alphabet (the record-breaking rescalings included), except that
-   Tensor.normalize_ must not be applied to a flagged tensor (`all_flag_safe`;
-   that case is refuted below and is an open finding) *)
-Theorem C08_flag_sound : forall ops st st', FlagsOK (sites st) -> all_flag_safe ops st -> run ops st = Some st' ->
+   of the WHOLE alphabet, unconditionally (rescalings that do not take the record and
+   Tensor.normalize_ included) *)
+Theorem C08_flag_sound : forall ops st st', FlagsOK (sites st) -> run ops st = Some st' ->
   forall k, (fl (get (sites st') k) = FL -> gL (get (sites st') k) = true)
          /\ (fl (get (sites st') k) = FR -> gR (get (sites st') k) = true).
 Proof. exact run_flags. Qed.
@@ -90,30 +89,16 @@ Theorem C08_domain_is_whole_alphabet : forall st o,
      record true only for sites inside the recorded range; a fresh record is anything
      but a pair *)
   | OScale ss => match rec st with RSome a b => Forall (fun s => a <= s /\ s <= b) ss | _ => True end
-  | ONormalizeSite i => fl (get (sites st) i) = FNone
-                        /\ match rec st with RSome a b => a <= i /\ i <= b | _ => True end
+  | ONormalizeSite i => match rec st with RSome a b => a <= i /\ i <= b | _ => True end
   | OSetRecord r => match r with RSome _ _ => False | _ => True end
   end.
 Proof. intros st o. destruct o; simpl; tauto. Qed.
 Print Assumptions C08_domain_is_whole_alphabet.
 
-(* ---- refuted on the current code (open finding scale:site_normalize:false_flag):
-   Tensor.normalize_ rescales a tensor and passes its left_inds flag on.  `all_flag_safe`
-   in C08_flag_sound excludes exactly this: normalize_ of a FLAGGED site tensor. *)
-Theorem C08_tensor_normalize_flag_refuted :
-  exists st', Inv w_loose /\ step (ONormalizeSite 1) (0, 0) w_loose = Some st'
-              /\ record_ok st' = true /\ ~ FlagsOK (sites st').
-Proof. exact tensor_normalize_refuted. Qed.
-Print Assumptions C08_tensor_normalize_flag_refuted.
-
-Theorem C08_flag_safe_is_only_normalize : forall st o,
-  flag_safe st o <-> match o with ONormalizeSite i => fl (get (sites st) i) = FNone | _ => True end.
-Proof. intros. reflexivity. Qed.
-Print Assumptions C08_flag_safe_is_only_normalize.
-
 (* ---- HISTORIC (pre-fix variants, C08/Historic.v; none of this models the
    current code).  Before the fix commits 4980426d, f9934bdc, eb8c2f1e,
-   e1e3f983, 47017e6a the programs below left a false record from a sound
+   e1e3f983, 47017e6a (and 7d04d5b5 for the flag kept by Tensor.normalize) the
+   programs below left a false record (a false flag) from a sound
    state (DESIGN section 5 F9, F17 and three more found while building C08);
    the witnesses were replayed on the implementation at the time. *)
 Theorem C08_historic_swap_prefix_broke_record :
@@ -138,6 +123,12 @@ Print Assumptions C08_historic_dropped_copy_prefix_broke_record.
 Theorem C08_historic_measure_last_prefix_broke_record : BreaksRecord (measure_prefix 5 true (0, 0)).
 Proof. exact measure_prefix_breaks. Qed.
 Print Assumptions C08_historic_measure_last_prefix_broke_record.
+
+Theorem C08_historic_tensor_normalize_prefix_kept_flag :
+  exists st', Inv w_loose /\ normalize_site_prefix 1 w_loose = Some st'
+              /\ record_ok st' = true /\ ~ FlagsOK (sites st').
+Proof. exact normalize_site_prefix_breaks_flag. Qed.
+Print Assumptions C08_historic_tensor_normalize_prefix_kept_flag.
 
 (* ---- why a sound record makes the canonical-form consumers right (partial:
    the two environment identities; the consumers' values themselves are decided
